@@ -106,6 +106,23 @@ theorem nodup_append_singleton {α : Type} {l : List α} {a : α} (h : l.Nodup) 
   simp only [List.mem_singleton] at hy
   intro hxy; rw [hy] at hxy; rw [hxy] at hx; exact ha hx
 
+/-- in a natively numbered workbook the first candidate id of NewSheet is free -/
+theorem freshSheetId_native (b : Book) (h : BookOk b) (hid : maxSheetId b.sheets 0 + 1 < 9223372036854775807) :
+    freshSheetId b.wsParts (b.wsParts.length + 1) (maxSheetId b.sheets 0 + 1) = maxSheetId b.sheets 0 + 1 := by
+  have hN0 := le_maxSheetId b.sheets 0
+  have hc : b.wsParts.contains (worksheetPath (sheetPartAbs (maxSheetId b.sheets 0 + 1))) = false := by
+    cases hc : b.wsParts.contains (worksheetPath (sheetPartAbs (maxSheetId b.sheets 0 + 1))) with
+    | false => rfl
+    | true =>
+      exfalso
+      obtain ⟨s, hs, hp⟩ := (h.parts _).mp (List.elem_iff.mp hc)
+      have hr := h.idrange s hs
+      have hle := mem_le_maxSheetId b.sheets 0 s hs
+      have := sheetPath_inj (a := maxSheetId b.sheets 0 + 1) (b := s.sheetId) (by omega) (by omega) hr.1 (by omega) hp
+      omega
+  show (if b.wsParts.contains (worksheetPath (sheetPartAbs (maxSheetId b.sheets 0 + 1))) = true then _ else _) = _
+  rw [hc]; rfl
+
 /-- NewSheet keeps the sheet ↔ relationship ↔ part ↔ Override correspondence -/
 theorem newSheet_ok (b : Book) (name : Str) (h : BookOk b)
     (hno : maxRelNum b.wbRels 0 + 1 < 9223372036854775808)
@@ -120,7 +137,8 @@ theorem newSheet_ok (b : Book) (name : Str) (h : BookOk b)
     have hu : uniqPart relWorksheet = none := by decide +kernel
     have heq := addRels_eq b.wbRels relWorksheet (sheetPartAbs (maxSheetId b.sheets 0 + 1)) [] hu hno
     have hfresh := mkRid_fresh b.wbRels hno
-    simp only [hw, heq]
+    have hfree := freshSheetId_native b h hid
+    simp only [hw, hfree, heq]
     -- abbreviations
     generalize hN : maxSheetId b.sheets 0 + 1 = N at *
     generalize hn : maxRelNum b.wbRels 0 + 1 = n at *
@@ -511,7 +529,7 @@ theorem maxSheetId_append (l l' : List SheetEnt) (m : Int) : maxSheetId (l ++ l'
   | cons r rs ih => simp only [List.cons_append, maxSheetId]; exact ih _
 
 /-- NewSheet raises the largest relationship number and the largest sheet id by at most one -/
-theorem newSheet_bounds (b : Book) (name : Str)
+theorem newSheet_bounds (b : Book) (name : Str) (h : BookOk b)
     (hno : maxRelNum b.wbRels 0 + 1 < 9223372036854775808)
     (hid : maxSheetId b.sheets 0 + 1 < 9223372036854775807) :
     maxRelNum (newSheet b name).wbRels 0 ≤ maxRelNum b.wbRels 0 + 1 ∧
@@ -524,8 +542,9 @@ theorem newSheet_bounds (b : Book) (name : Str)
   · have hw : wrap64 (maxSheetId b.sheets 0 + 1) = maxSheetId b.sheets 0 + 1 :=
       wrap64_small (by omega) (by omega)
     have hu : uniqPart relWorksheet = none := by decide +kernel
-    have heq := addRels_eq b.wbRels relWorksheet (sheetPartAbs (maxSheetId b.sheets 0 + 1)) [] hu hno
-    simp only [hw, heq]
+    have heq : ∀ k, addRels b.wbRels relWorksheet (sheetPartAbs k) [] = _ := fun k =>
+      addRels_eq b.wbRels relWorksheet (sheetPartAbs k) [] hu hno
+    simp only [hw, freshSheetId_native b h hid, heq]
     constructor
     · exact maxRelNum_append_new b.wbRels _ _ _ hno
     · rw [maxSheetId_append]
